@@ -12,9 +12,6 @@ def main():
     names = sys.argv[1:] or sorted(p.name for p in (V / "seeded").iterdir() if p.is_dir())
     resf = V / "seeded" / "RESULTS.json"
     res = json.loads(resf.read_text()) if resf.exists() else {}
-    gen = V / "lean/UvModel/Generated"
-    pristine = Path(f"/var/tmp/seedtest-gen-{os.getpid()}")
-    shutil.rmtree(pristine, ignore_errors=True); shutil.copytree(gen, pristine)
     for name in names:
         if "/" in name:                       # a staging directory like /tmp/seed-C06-out/1
             d = Path(name)
@@ -56,12 +53,8 @@ def main():
         finally:
             sh(["git", "-C", "/repo", "worktree", "remove", "--force", str(wt)])
             shutil.rmtree(wt, ignore_errors=True)
-            for f in pristine.iterdir():          # the mutant run regenerated the Lean kernels: put ours back
-                if (gen / f.name).read_bytes() != f.read_bytes(): shutil.copy2(f, gen / f.name)
             resf.write_text(json.dumps(res, indent=1, sort_keys=True))
-    # the evidence / replays written by these runs describe mutated trees: restore evidence from git
-    sh(["git", "-C", str(V), "checkout", "--", "evidence", "lean/UvModel/Generated"])
-    sh(["git", "-C", str(V), "clean", "-fdq", "lean/UvModel/Generated"])
-    shutil.rmtree(pristine, ignore_errors=True)
+    # mutant runs build in a private copy of the Lean project and write their evidence elsewhere
+    # (vlib._lean_dir, Ctx.finish): /verif/lean and /verif/evidence are untouched by this tool
 if __name__ == "__main__":
     main()
